@@ -176,6 +176,9 @@ func (c *conRun) execOne(store *gkvlite.Store, op ConOp, ev *Ev) {
 				coll().EvictSomeItems()
 			}
 		})
+	case "allocstats":
+		// read-only, package-wide: takes all three free-list locks
+		c.call(ev, func() { _ = coll().AllocStats() })
 	case "flush":
 		c.call(ev, func() {
 			if err := store.Flush(); err != nil {
@@ -399,7 +402,9 @@ func RunCon(plan *Plan, cp *ConPlan, prop string) (*RunResult, *conRun) {
 		w.OpOf = s.OpOf
 	}
 	gkvlite.VerifYield = func(site int) { s.Yield("hook-" + gkvlite.VerifSiteNames[site]) }
-	defer func() { gkvlite.VerifYield = nil; w.Yield = nil; w.Env.Yield = nil }()
+	s.LockName = gkvlite.VerifLockName
+	gkvlite.VerifLockHook = s.LockEvent
+	defer func() { gkvlite.VerifYield = nil; gkvlite.VerifLockHook = nil; w.Yield = nil; w.Env.Yield = nil }()
 	for ti := range cp.Tasks {
 		t := cp.Tasks[ti]
 		s.Go(t.Name, t.Weight, func() {
@@ -442,6 +447,9 @@ func RunCon(plan *Plan, cp *ConPlan, prop string) (*RunResult, *conRun) {
 	plan.Sched = append([]string(nil), s.Log...)
 	if s.Deadlock != "" {
 		c.fail("deadlock", "run", "%s", s.Deadlock)
+		// the goroutines of this run stay parked for ever, possibly holding
+		// package-global locks
+		gkvlite.VerifAbandonLocks()
 	}
 	return res, c
 }
